@@ -20,10 +20,12 @@ package PKGNAME
 // the collision is observed.
 
 import (
+	"encoding/json"
 	"fmt"
 	"gonum.org/v1/gonum/mat"
 	"os"
 	"path/filepath"
+	"reflect"
 	"sort"
 	"strings"
 	"time"
@@ -600,6 +602,9 @@ func vIdentServer(c *vCase) {
 	viper.Reset()
 	sc, stop := vNewInPackageControl()
 	defer close(stop)
+	if home, err := os.UserHomeDir(); err == nil {
+		os.MkdirAll(filepath.Join(home, ".dastard"), 0o755) // the program's main() makes this directory before anything else
+	}
 	nrows, ncols := 2+r.Intn(3), 1+r.Intn(2)
 	first := 1
 	for cyc := 0; cyc < 2+r.Intn(2); cyc++ {
@@ -681,6 +686,20 @@ func vIdentServer(c *vCase) {
 		} else if m, dup := cover(last.ChanGroups); dup || !same(m, inUse) || last.Nchannels != len(ls.chanNumbers) {
 			c.Violate("c19:status-groups", "%s: the STATUS message reports %d channels in groups %v, the streams use the numbers %v", what, last.Nchannels, last.ChanGroups, ls.chanNumbers)
 		}
+		// the report left on disk for other programs (~/.dastard/channels.json, rewritten at every Start)
+		if home, err := os.UserHomeDir(); err == nil {
+			b, err := os.ReadFile(filepath.Join(home, ".dastard", "channels.json"))
+			var onDisk []GroupIndex
+			if err != nil {
+				c.Violate("c19:channels-file", "%s: the channel-group file cannot be read: %v", what, err)
+			} else if err := json.Unmarshal(b, &onDisk); err != nil {
+				c.Violate("c19:channels-file", "%s: the channel-group file %s is not the JSON list it should be (%v): %q", what, filepath.Join(home, ".dastard", "channels.json"), err, vTrim(string(b), 300))
+			} else if !reflect.DeepEqual(onDisk, sc.status.ChanGroups) && !(len(onDisk) == 0 && len(sc.status.ChanGroups) == 0) {
+				c.Violate("c19:channels-file", "%s: the channel-group file lists %v, the server's status says %v", what, onDisk, sc.status.ChanGroups)
+			} else {
+				c.Cov("channel_group_files_checked", 1)
+			}
+		}
 		c.Cov("server_status_checks", 1)
 		vClientReset(false)
 		dummy := ""
@@ -694,7 +713,82 @@ func vIdentServer(c *vCase) {
 	c.Cov("server_sessions", 1)
 }
 
+// vIdentLanceroConfigure: the list of active cards goes through the real LanceroSource.Configure (with the cringe globals it
+// reads taken from a private file): lists in any order, and lists that name a card twice. Whatever Configure, and then
+// PrepareChannels, accept must have distinct stream identities.
+func vIdentLanceroConfigure(c *vCase) {
+	r := c.R
+	ncards := 2 + r.Intn(2)
+	rows := 2 + r.Intn(4)
+	gpath := filepath.Join(c.Dir, "cringeGlobals.json")
+	os.WriteFile(gpath, []byte(fmt.Sprintf(`{"SETT": 10, "seqln": %d, "lsync": 40, "testpattern": 0, "propagationdelay": 1, "NSAMP": 1, "carddelay": 1, "XPT": 0}`, rows)), 0o644)
+	old := cringeGlobalsPath
+	cringeGlobalsPath = gpath
+	defer func() { cringeGlobalsPath = old }()
+	ls := new(LanceroSource)
+	ls.name = "Lancero"
+	ls.channelsPerPixel = 2
+	ls.devices = make(map[int]*LanceroDevice)
+	cols := make([]int, ncards)
+	for d := 0; d < ncards; d++ {
+		cols[d] = 1 + r.Intn(3)
+		ls.devices[d] = &LanceroDevice{devnum: d, ncols: cols[d], lsync: 40, clockMHz: 125}
+	}
+	var list []int
+	dup := vChance(r, 0.6)
+	if dup {
+		a, b := r.Intn(ncards), r.Intn(ncards)
+		list = vPick(r, []int{a, a}, []int{a, b, b}, []int{b, a, b}, []int{a, a, b}, []int{ncards - 1, ncards - 1}, []int{0, ncards - 1, ncards - 1})
+		c.Cov("configure_lists_naming_a_card_twice", 1)
+	} else {
+		list = r.Perm(ncards)[:1+r.Intn(ncards)]
+	}
+	seen := map[int]bool{}
+	reallyDup := false
+	for _, d := range list {
+		reallyDup = reallyDup || seen[d]
+		seen[d] = true
+	}
+	cfg := &LanceroSourceConfig{ActiveCards: list, FirstRow: vPick(r, 1, 1, 33), ChanSepCards: vPick(r, 100, 1000, 1000, 0), ChanSepColumns: vPick(r, 0, 10, 32)}
+	what := fmt.Sprintf("Lancero Configure(ActiveCards %v of %d cards with %v columns x %d rows, first row %d, separation cards/columns %d/%d)", list, ncards, cols, rows, cfg.FirstRow, cfg.ChanSepCards, cfg.ChanSepColumns)
+	if err := ls.Configure(cfg); err != nil {
+		if !reallyDup && strings.Contains(err.Error(), "same device") {
+			c.Violate("c19:configure-refused", "%s was refused for naming a device twice: %v", what, err)
+		}
+		c.Cov("configure_refused", 1)
+		return
+	}
+	// what Sample does with the cards Configure made active (the column count is a property of the card)
+	ls.nchan = 0
+	var geom []vStreamGeom
+	for _, dev := range ls.active {
+		dev.ncols = cols[dev.devnum]
+		ls.nchan += dev.nrows * dev.ncols * 2
+		for col := 0; col < dev.ncols; col++ {
+			for row := 0; row < dev.nrows; row++ {
+				g := vStreamGeom{dev.devnum, col, row, dev.nrows, dev.ncols}
+				geom = append(geom, g, g)
+			}
+		}
+	}
+	ls.ncards = len(ls.active)
+	ls.sampleRate = 125e6 / float64(40*rows)
+	ls.samplePeriod = time.Duration(roundint(1e9 / ls.sampleRate))
+	if err := ls.PrepareChannels(); err != nil {
+		c.Cov("lancero_rejected", 1)
+		return
+	}
+	c.Cov("configure_accepted", 1)
+	vCheckIdentityTables(c, &ls.AnySource, ls.ChannelNames(), ls.ChanGroups(), geom, 2, what)
+}
+
 func vRunIdentity(c *vCase) {
+	if c.Idx%80 == 52 || c.Idx%80 == 53 {
+		vIdentLanceroConfigure(c)
+		c.Describe("%d/%d", c.Seed, c.Idx)
+		c.Nontrivial()
+		return
+	}
 	if c.Idx%80 == 12 {
 		vIdentServer(c)
 		c.Describe("%d/%d", c.Seed, c.Idx)
@@ -725,7 +819,7 @@ func init() {
 		},
 		Run: vRunIdentity,
 		Meta: vMeta{Level: "exploration",
-			Rule:        "case = one source configuration: Lancero with 1-4 cards (arbitrary device numbers and order, rows 1-33, columns 1-8, equal or mixed row counts), first-row number, card/column separations drawn around the acceptance boundaries (negative, 0, one too small, exact, larger) through the real PrepareChannels, also on a re-used source object; Abaco group layouts (adjacent, spaced, overlapping by one or several channels, nested) through the real Sample+PrepareChannels with scripted packets; Triangle/SimPulse/Roach/AnySource defaults. For every accepted configuration the identity tables are checked (distinct names, partners share a number, no number collision, groups cover exactly the numbers in use, row/column codes = true geometry) and for a sample LJH2.2/LJH3/OFF files are written and listed/decoded (one file per stream and type, header identity = reported identity, file name carries the stream name). 1 of 80 cases is a server-level session: 2-3 Start/Stop cycles of a scripted Lancero card through an in-package SourceControl with the first-row number and/or geometry changing in between; after each Start the channel groups in the server's STATUS field and in the STATUS message sent to clients must cover exactly the numbers in use; non-trivial = every configuration",
+			Rule:        "case = one source configuration: Lancero with 1-4 cards (arbitrary device numbers and order, rows 1-33, columns 1-8, equal or mixed row counts), first-row number, card/column separations drawn around the acceptance boundaries (negative, 0, one too small, exact, larger) through the real PrepareChannels, also on a re-used source object; Abaco group layouts (adjacent, spaced, overlapping by one or several channels, nested) through the real Sample+PrepareChannels with scripted packets; Triangle/SimPulse/Roach/AnySource defaults. For every accepted configuration the identity tables are checked (distinct names, partners share a number, no number collision, groups cover exactly the numbers in use, row/column codes = true geometry) and for a sample LJH2.2/LJH3/OFF files are written and listed/decoded (one file per stream and type, header identity = reported identity, file name carries the stream name). 1 of 80 cases is a server-level session: 2-3 Start/Stop cycles of a scripted Lancero card through an in-package SourceControl with the first-row number and/or geometry changing in between; after each Start the channel groups in the server's STATUS field and in the STATUS message sent to clients must cover exactly the numbers in use; non-trivial = every configuration; additions: the channel-group file ~/.dastard/channels.json is read after every Start of a server-level session and must be the JSON list of the status groups; two cases in 80 send active-card lists (any order; 60 % naming a card twice) through the real LanceroSource.Configure (cringe globals from a private file) and check the tables of whatever Configure and PrepareChannels accept",
 			Assumptions: []string{"outcome-based: a colliding configuration counts as rejected only if PrepareChannels/Sample returns an error; acceptance of a collision-free configuration is not required", "device geometry is set directly (what sampling the card would determine)"},
 			Guards: map[string]map[string]int{
 				"quick": {"lancero_accepted": 1000, "lancero_rejected": 1000, "lancero_accepted_with_card_separation": 150, "lancero_accepted_with_column_separation": 150, "lancero_accepted_multi_card": 300,
